@@ -11,7 +11,14 @@
 (***************************************************************************)
 EXTENDS GoitData
 
-Cl(name, props, ante, cons) == [n |-> name, p |-> props, a |-> ante, ok |-> cons]
+(* Want: the property ids whose clauses are to be evaluated ("ALL" = every clause).  A clause that is  *)
+(* not wanted is not evaluated at all (TLC evaluates operator arguments lazily), which is what makes  *)
+(* judging long traces cheap: each check asks only for the clauses of its own property.              *)
+CONSTANT Want
+Wanted(props) == "ALL" \in Want \/ props \cap Want # {}
+Cl(name, props, ante, cons) ==
+    IF Wanted(props) THEN [n |-> name, p |-> props, a |-> ante, ok |-> cons]
+    ELSE [n |-> name, p |-> props, a |-> FALSE, ok |-> TRUE]
 
 IsCmd(e) == e.cls = "cmd"
 Ok(e) == e.res = "ok"
@@ -20,6 +27,7 @@ Dom(e) == "dom" \in DOMAIN e /\ e.dom    \* arguments are inside the properties'
 Unchanged(s, t) == s.st.dg = t.st.dg
 HasObs(x, k) == k \in DOMAIN x.obs
 ArgSet(e) == SeqToSet(e.paths)
+NoDupArgs(e) == Cardinality(SeqToSet(e.paths)) = Len(e.paths)   \* repeated arguments: first occurrence acts, later ones may fail
 
 ----------------------------------------------------------------------------
 (* configuration / identity *)
@@ -52,29 +60,42 @@ ReachCommits(st, frontier, seen) ==
     ELSE LET nxt == UNION {IF IsCommit(st, c) THEN SeqToSet(Obj(st, c).parents) ELSE {} : c \in frontier}
          IN ReachCommits(st, nxt \ (seen \cup frontier), seen \cup frontier)
 TipIds(st) == {st.refs[b] : b \in Branches(st)}
+(* all trees reachable from a set of root trees, each expanded once (missing / non-tree ids included) *)
+RECURSIVE TreeClosure(_, _, _)
+TreeClosure(st, frontier, seen) ==
+    IF frontier = {} THEN seen
+    ELSE LET nxt == UNION {IF IsTree(st, tid)
+                             THEN LET o == Obj(st, tid) IN {o.ents[i].id : i \in {j \in 1..Len(o.ents) : o.ents[j].m = "040000"}}
+                             ELSE {} : tid \in frontier}
+         IN TreeClosure(st, nxt \ (seen \cup frontier), seen \cup frontier)
 TreeEntriesOk(st, tid) ==
     /\ IsTree(st, tid)
-    /\ \A i \in 1..Len(Obj(st, tid).ents) :
-          LET en == Obj(st, tid).ents[i] IN
-          IF en.m = "040000" THEN IsTree(st, en.id) ELSE IsBlob(st, en.id)
+    /\ LET o == Obj(st, tid) IN
+       \A i \in 1..Len(o.ents) : IF o.ents[i].m = "040000" THEN IsTree(st, o.ents[i].id) ELSE IsBlob(st, o.ents[i].id)
+(* one commit: it is a commit and everything its snapshot reaches exists with the right kind *)
 CommitOk(st, c) ==
     /\ IsCommit(st, c)
-    /\ \A tid \in TreesOf(st, Obj(st, c).tree) : TreeEntriesOk(st, tid)
+    /\ \A tid \in TreeClosure(st, {Obj(st, c).tree}, {}) : TreeEntriesOk(st, tid)
+(* every commit reachable from the branches: commits, parents, snapshots, snapshot entries *)
+ReachableOk(st) ==
+    LET RC == ReachCommits(st, TipIds(st), {}) IN
+    /\ \A c \in RC : IsCommit(st, c)
+    /\ \A tid \in TreeClosure(st, {Obj(st, c).tree : c \in RC}, {}) : TreeEntriesOk(st, tid)
+IdxOk(st) == st.idx.present => (st.idx.ok /\ \A i \in 1..Len(st.idx.ents) : IsBlob(st, st.idx.ents[i].id))
 Connected(st) ==
     st.repo =>
       /\ HeadOk(st)
       /\ Len(st.refsodd) = 0
-      /\ \A c \in ReachCommits(st, TipIds(st), {}) : CommitOk(st, c)
-      /\ st.idx.present => (st.idx.ok /\ \A i \in 1..Len(st.idx.ents) : IsBlob(st, st.idx.ents[i].id))
-      /\ BadObjs(st) = {}
-      /\ \A id \in DOMAIN st.objs : Obj(st, id).k # "bad"
+      /\ ReachableOk(st)
+      /\ IdxOk(st)
+      /\ \A id \in DOMAIN st.objs : Obj(st, id).k \in {"blob", "tree", "commit"}
 (* the same without the store-wide demand: only what refs and staging area reach must be intact (C15) *)
 ConnectedReach(st) ==
     st.repo =>
       /\ HeadOk(st)
       /\ Len(st.refsodd) = 0
-      /\ \A c \in ReachCommits(st, TipIds(st), {}) : CommitOk(st, c)
-      /\ st.idx.present => (st.idx.ok /\ \A i \in 1..Len(st.idx.ents) : IsBlob(st, st.idx.ents[i].id))
+      /\ ReachableOk(st)
+      /\ IdxOk(st)
 Immutable(s, t) == \A id \in DOMAIN s.st.objs : id \in DOMAIN t.st.objs /\ t.st.objs[id] = s.st.objs[id]
 
 ----------------------------------------------------------------------------
@@ -120,6 +141,8 @@ RestrictWt(wt, keep) == [p \in (DOMAIN wt) \cap keep |-> wt[p]]
 (* restore --staged selection: known to HEAD snapshot or to the staging area *)
 KnownS(s) == PathsOf(HeadSnap(s.st)) \cup IdxPaths(s.st.idx)
 SelStaged(s, a) == {p \in KnownS(s) : p = a \/ Under(a, p)}
+StagedDisjoint(s, argseq) ==
+    \A i, j \in 1..Len(argseq) : i # j => SelStaged(s, argseq[i]) \cap SelStaged(s, argseq[j]) = {}
 
 ----------------------------------------------------------------------------
 (* reflog view (C08, C11) *)
@@ -146,10 +169,8 @@ LogEntOk(st, en) ==
 (* The clause list.  `init` steps and environment edits are judged only by the *)
 (* state clauses that apply to them.                                          *)
 
-StateClauses(s, e, t) ==
+StateClausesW(s, e, t, connS, connT) ==
     LET T == t.st
-        connS == Connected(s.st)
-        connT == Connected(t.st)
         stOk == HasObs(t, "status") /\ HeadOk(t.st) /\ connT
     IN
     <<
@@ -256,9 +277,8 @@ RefusedUnchangedEvs == {"commit", "branch", "branchd", "branchr", "branchlist", 
                         "config", "catfile", "revparse", "log", "status", "reflog", "lsfiles", "hashobject", "version"}
 RefusedUnchangedApplies(e) == e.ev \in RefusedUnchangedEvs \/ (e.ev = "raw" /\ "ru" \in DOMAIN e /\ e.ru)
 
-CommitClauses(s, e, t) ==
+CommitClausesW(s, e, t, connS, connT) ==
     LET S == s.st  T == t.st
-        connS == Connected(s.st)
         hb == HeadBranch(S)
         c == IF HeadOk(T) /\ HeadBranch(T) \in Branches(T) THEN HeadId(T) ELSE "none"
         co == Obj(T, c)
@@ -321,9 +341,8 @@ CommitClauses(s, e, t) ==
         isC /\ ~IdentitySet(S) => Refused(e) /\ Unchanged(s, t))
     >>
 
-StageClauses(s, e, t) ==
+StageClausesW(s, e, t, connS, connT) ==
     LET S == s.st  T == t.st
-        connS == Connected(s.st)
         isAdd == e.ev = "add" /\ Dom(e) /\ connS
         isRm == e.ev = "rm" /\ Dom(e) /\ connS
         isRestore == e.ev = "restore" /\ Dom(e) /\ connS
@@ -334,8 +353,8 @@ StageClauses(s, e, t) ==
         isAdd /\ Ok(e) => AddExact(s, t, ArgSet(e))),
     Cl("C04_AddRefuse", {"C04"}, isAdd /\ \E a \in ArgSet(e) : ~ArgKnownToAdd(S, a),
         isAdd /\ (\E a \in ArgSet(e) : ~ArgKnownToAdd(S, a)) => Refused(e) /\ Unchanged(s, t)),
-    Cl("C04_AddAccept", {"C04", "C06"}, isAdd /\ Len(e.paths) > 0 /\ \A a \in ArgSet(e) : (OnDiskFile(S, a) \/ OnDiskDir(S, a) \/ Tracked(S, a)),
-        isAdd /\ Len(e.paths) > 0 /\ (\A a \in ArgSet(e) : (OnDiskFile(S, a) \/ OnDiskDir(S, a) \/ Tracked(S, a))) => Ok(e)),
+    Cl("C04_AddAccept", {"C04", "C06"}, isAdd /\ Len(e.paths) > 0 /\ NoDupArgs(e) /\ \A a \in ArgSet(e) : (OnDiskFile(S, a) \/ OnDiskDir(S, a) \/ Tracked(S, a)),
+        isAdd /\ Len(e.paths) > 0 /\ NoDupArgs(e) /\ (\A a \in ArgSet(e) : (OnDiskFile(S, a) \/ OnDiskDir(S, a) \/ Tracked(S, a))) => Ok(e)),
     Cl("C04_AddIdem", {"C04"}, isAdd /\ Ok(e) /\ AddNothingToDo(s, ArgSet(e)),
         isAdd /\ Ok(e) /\ AddNothingToDo(s, ArgSet(e)) => T.idx = S.idx /\ DOMAIN T.objs = DOMAIN S.objs),
     Cl("C04_RmExact", {"C04", "C06"}, isRm /\ Ok(e),
@@ -367,8 +386,8 @@ StageClauses(s, e, t) ==
             /\ \A p \in R : PairsFor(IdxPairs(T.idx), p) = PairsFor(H, p)
             /\ \A p \in (IdxPaths(S.idx) \cup IdxPaths(T.idx)) \ R : PairsFor(IdxPairs(T.idx), p) = PairsFor(IdxPairs(S.idx), p)
             /\ T.wt = S.wt),
-    Cl("C09_StagedFound", {"C09"}, isRestoreS /\ Len(e.paths) > 0 /\ \A a \in ArgSet(e) : SelStaged(s, a) # {},
-        isRestoreS /\ Len(e.paths) > 0 /\ (\A a \in ArgSet(e) : SelStaged(s, a) # {}) => Ok(e)),
+    Cl("C09_StagedFound", {"C09"}, isRestoreS /\ Len(e.paths) > 0 /\ StagedDisjoint(s, e.paths) /\ \A a \in ArgSet(e) : SelStaged(s, a) # {},
+        isRestoreS /\ Len(e.paths) > 0 /\ StagedDisjoint(s, e.paths) /\ (\A a \in ArgSet(e) : SelStaged(s, a) # {}) => Ok(e)),
     Cl("C09_StagedUnknown", {"C09"}, isRestoreS /\ \E a \in ArgSet(e) : SelStaged(s, a) = {},
         isRestoreS /\ (\E a \in ArgSet(e) : SelStaged(s, a) = {}) =>
             Refused(e) /\ (SelStaged(s, e.paths[1]) = {} => Unchanged(s, t))),
@@ -379,9 +398,8 @@ StageClauses(s, e, t) ==
         e.ev \in {"restore"} /\ Ok(e) => T.meta = S.meta /\ T.objs = S.objs)
     >>
 
-ResetClauses(s, e, t) ==
+ResetClausesW(s, e, t, connS, connT) ==
     LET S == s.st  T == t.st
-        connS == Connected(s.st)
         isR == e.ev = "reset" /\ connS /\ HeadOk(S) /\ HasObs(s, "reflog")
         okR == isR /\ Ok(e) /\ PosValid(s, e)
         hb == HeadBranch(S)
@@ -419,9 +437,8 @@ ResetClauses(s, e, t) ==
             /\ View(t)[1].full = T.refs[hb] /\ View(t)[1].kind = "reset")
     >>
 
-RefClauses(s, e, t) ==
+RefClausesW(s, e, t, connS, connT) ==
     LET S == s.st  T == t.st
-        connS == Connected(s.st)
         ok0 == connS /\ HeadOk(S)
         hb == HeadBranch(S)
         nm == IF "name" \in DOMAIN e THEN e.name ELSE ""
@@ -508,8 +525,13 @@ ContentOnlyClauses(s, e, t) ==
             \A k \in DOMAIN t.obs.log : k \in DOMAIN s.obs.log => LogIds(t.obs.log[k]) = LogIds(s.obs.log[k]))
     >>
 
-AllClauses(s, e, t) ==
-    StateClauses(s, e, t) \o CommitClauses(s, e, t) \o StageClauses(s, e, t) \o ResetClauses(s, e, t)
-        \o RefClauses(s, e, t) \o ConfigClauses(s, e, t) \o ContentOnlyClauses(s, e, t)
+AllClausesW(s, e, t, connS, connT) ==
+    StateClausesW(s, e, t, connS, connT) \o CommitClausesW(s, e, t, connS, connT) \o StageClausesW(s, e, t, connS, connT)
+        \o ResetClausesW(s, e, t, connS, connT) \o RefClausesW(s, e, t, connS, connT)
+        \o ConfigClauses(s, e, t) \o ContentOnlyClauses(s, e, t)
+
+(* connectivity of the two states is computed once per step and handed down as an argument:     *)
+(* TLC evaluates an operator argument once but a LET definition at every reference               *)
+AllClauses(s, e, t) == AllClausesW(s, e, t, Connected(s.st), Connected(t.st))
 
 =============================================================================
